@@ -77,6 +77,13 @@ pub fn active() -> Option<Arc<RunCtx>> {
     ACTIVE.read().unwrap().clone()
 }
 
+/// A pure scheduling point (no tick, no observer): used for scratch-file syscalls of parallel tasks.
+pub fn yield_here(site: &'static str) {
+    if let Some(ts) = scheduler() {
+        ts.yield_point(site);
+    }
+}
+
 struct SimHooks;
 
 const BASE: usize = 0x1000_0000_0000;
